@@ -35,6 +35,8 @@ def judgeC13 : P Verdict := do
   tag kind
   let start ← pNat
   let skl ← pNatList
+  let pre ← pNat
+  if pre > 0 then tag "pre-skip"
   expect "|"
   let lb0 ← pNat; let ub0 ← pNat
   let n ← pNat
@@ -59,7 +61,7 @@ def judgeC13 : P Verdict := do
   let (mach, ref, h0) : List (Nat × Nat × Nat × Nat × Nat) × List (Nat × Nat × Nat) × (Nat × Nat) :=
     match kind with
     | "dfs" =>
-      let m := Dfs.new t s
+      let m := Dfs.skipN pre (Dfs.new t s)
       ((Dfs.run sk fuel m 0).map (fun r => (r.1.depth, r.1.idx, r.1.nrem, r.2.1, r.2.2)),
        (refDfsT sk 0 s 0 0).1.map (fun i => (i.depth, i.idx, i.nrem)), (m.lb, m.ub))
     | "edge" =>
@@ -67,7 +69,7 @@ def judgeC13 : P Verdict := do
       ((DfsE.run sk fuel m 0).map (fun r => (r.1.src, r.1.label, r.1.dest, r.2.1, r.2.2)),
        (refEdgeK sk s.idx 0 s.kids 0).1.map (fun i => (i.src, i.label, i.dest)), (m.lb, m.ub))
     | _ =>
-      let m := BfsM.new t s
+      let m := BfsM.skipN pre (BfsM.new t s)
       ((BfsM.run sk fuel m 0).map (fun r => (r.1.depth, r.1.idx, r.1.nrem, r.2.1, r.2.2)),
        (ITree.refBfs sk s).map (fun i => (i.depth, i.idx, i.nrem)), (m.lb, m.ub))
   let implItems := rows.map (fun r => (r.a, r.b, r.c))
